@@ -354,6 +354,9 @@ class _Builder:
     def build_Mult(self, o):
         return operator.mul
 
+    def build_Sub(self, o):
+        return operator.sub
+
     def build_USub(self, o):
         return operator.neg
 
